@@ -63,6 +63,17 @@ def semantic_check(ctx, rng, cfg, d, raw, info, trials=6):
 def run(ctx):
     rng = ctx.rng
     cs = c07.cases(ctx, ctx.budget(500, 10000), multi_match=False, mixes=False, misuse=0.03, bool_ops=True)
+    # directed: operand lists beyond any limit a change may introduce, with every kind of operand (seeded C05-G)
+    from .. import gen as _gen
+    for n in (1030, 2100):
+        for cls in ("BoolOperation", "AndOperation", "OrOperation", "UnknownOperation"):
+            for wrap in ("Prohibit", "Not", "Plus", None):
+                if rng.random() < (0.5 if ctx.tier == "quick" and not ctx.escalate else 1.1):
+                    continue
+                ops = [_gen.W("a")] + [(_gen.mk(wrap, [_gen.W("b%d" % i)]) if wrap else _gen.W("b%d" % i)) for i in range(n)]
+                if cls == "AndOperation" and wrap is None:
+                    ops = [_gen.W("w%d" % i) for i in range(n)]
+                cs.append((None, {"default_operator": rng.choice(["should", "must"])}, _gen.mk(cls, ops)))
     for _, cfg, _ in cs:
         # a fuzziness / slop in the clause must be the query's own here (C06 covers the merging of per-field options)
         for opts in (cfg.get("field_options") or {}).values():
